@@ -695,23 +695,252 @@ Proof.
     eapply uniq_nodup; eauto.
 Qed.
 
+(* for the current code the stored identifier does not depend on the position of the pulse *)
+Lemma mapped_current_indep hs p q e : mapped_id current hs p e = mapped_id current hs q e.
+Proof. reflexivity. Qed.
+Lemma in_flatten_from : forall (l : list ham) p h e, In h l -> In e (h_entries h) -> exists q, In (q, e) (flatten_from p l).
+Proof.
+  induction l as [|h0 l IH]; intros p h e Hh He; simpl in *. contradiction.
+  destruct Hh as [->|Hh].
+  - exists p. apply in_or_app. left. apply in_map. assumption.
+  - destruct (IH (S p) h e Hh He) as (q & Hq). exists q. apply in_or_app. right. assumption.
+Qed.
+Lemma nodup_str_id l : NoDup l -> nodup_str l = l.
+Proof.
+  induction 1 as [|x l Hx Hl IH]; simpl. reflexivity.
+  rewrite IH. rewrite (proj2 (mem_str_false x l) Hx). reflexivity.
+Qed.
 (* within one pulse with duplicate-free identifiers the mapped identifiers are duplicate-free *)
 Lemma mapped_nodup hs p h : oper_ids_clash hs = false -> has_dup_str (map (new_id hs) (uniq hs)) = false ->
-  (forall e, In e (h_entries h) -> In (p, e) (flatten hs)) -> NoDup (map (@e_id oper coef) (h_entries h)) ->
+  (forall e, In e (h_entries h) -> exists q, In (q, e) (flatten hs)) -> NoDup (map (@e_id oper coef) (h_entries h)) ->
   NoDup (map (fun e => mapped_id current hs p e) (h_entries h)).
 Proof.
   intros Hc Hd Hin. induction (h_entries h) as [|e l IH]; simpl; intros N. constructor.
   inversion N as [|? ? Hx Hl]; subst. constructor.
   - intros Hm. apply in_map_iff in Hm. destruct Hm as (e' & E & He').
-    destruct (mapped_id_is_new_id hs p e Hc (Hin e (or_introl eq_refl))) as (u & Hu & Eo & Em).
-    destruct (mapped_id_is_new_id hs p e' Hc (Hin e' (or_intror He'))) as (u' & Hu' & Eo' & Em').
+    destruct (Hin e (or_introl eq_refl)) as (q & Hq). destruct (Hin e' (or_intror He')) as (q' & Hq').
+    rewrite (mapped_current_indep hs p q e), (mapped_current_indep hs p q' e') in E.
+    destruct (mapped_id_is_new_id hs q e Hc Hq) as (u & Hu & Eo & Em).
+    destruct (mapped_id_is_new_id hs q' e' Hc Hq') as (u' & Hu' & Eo' & Em').
     rewrite Em, Em' in E.
     assert (Euu : u' = u) by (apply (NoDup_map_inj (new_id hs) (uniq hs)); auto; apply has_dup_nodup; assumption).
     subst u'. apply Hx.
     assert (Eid : e_id e' = e_id e).
-    { rewrite <- (rep_id hs p e u Hc (Hin e (or_introl eq_refl)) Hu Eo).
-      rewrite <- (rep_id hs p e' u Hc (Hin e' (or_intror He')) Hu Eo'). reflexivity. }
+    { rewrite <- (rep_id hs q e u Hc Hq Hu Eo). rewrite <- (rep_id hs q' e' u Hc Hq' Hu Eo'). reflexivity. }
     rewrite <- Eid. apply in_map. assumption.
   - apply IH; auto. intros e' He'. apply Hin. right; assumption.
 Qed.
+
+Lemma rows_ok_gen hs us : oper_ids_clash hs = false -> has_dup_str (map (new_id hs) (uniq hs)) = false ->
+  NoDup us -> (forall q e, In (q, e) (flatten hs) -> In (mapped_id current hs q e) us) ->
+  forall l p, (forall h, In h l -> In h hs) -> Forall (fun h => NoDup (map (@e_id oper coef) (h_entries h))) l ->
+  forallb (fun x => count_true (fst x) =? snd x)
+          (combine (map (fun pid => map (fun u => mem_str u pid) us) (pulse_ids (mappings_from current hs p l)))
+                   (map (fun h => length (h_entries h)) l)) = true.
+Proof.
+  intros Hc Hd Nus Hall. induction l as [|h l IH]; intros p Hsub Hwf; simpl. reflexivity.
+  inversion Hwf as [|? ? Hh Hl]; subst.
+  assert (Hin : forall e, In e (h_entries h) -> exists q, In (q, e) (flatten hs)).
+  { intros e He. apply (in_flatten_from hs 0 h e); auto. apply Hsub. left; reflexivity. }
+  apply andb_true_iff. split.
+  - apply Nat.eqb_eq. unfold mapping_of. rewrite map_map. simpl.
+    pose proof (mapped_nodup hs p h Hc Hd Hin Hh) as Nm.
+    rewrite (nodup_str_id _ Nm). rewrite count_members; auto.
+    + apply map_length.
+    + intros x Hx. apply in_map_iff in Hx. destruct Hx as (e & <- & He).
+      destruct (Hin e He) as (q & Hq). rewrite (mapped_current_indep hs p q e). apply Hall. assumption.
+  - apply IH; auto. intros h' Hh'. apply Hsub. right; assumption.
+Qed.
+
+Theorem rows_ok_current k hs r : concatenate_hamiltonian k hs = inr r ->
+  Forall (fun h => NoDup (map (@e_id oper coef) (h_entries h))) hs ->
+  rows_ok (r_map r) (map (fun h => length (h_entries h)) hs) = true.
+Proof.
+  intros H Hwf. destruct (concat_result oper coef oeqb ceqb czero k hs r H) as (Hc & Hd & Ho & Hi & Hr & Hm).
+  unfold rows_ok, present. rewrite Hm.
+  apply (rows_ok_gen hs (unique_ids (mappings_from current hs 0 hs)) Hc Hd); auto.
+  - unfold unique_ids. apply (Permutation_NoDup (l := nodup_str (List.concat (pulse_ids (mappings_from current hs 0 hs))))).
+    symmetry. apply sort_by_perm. apply nodup_str_nodup.
+  - intros q e He. unfold unique_ids.
+    apply (Permutation_in _ (Permutation_sym (sort_by_perm (fun s => s) _))).
+    apply (proj2 (nodup_str_in _ _)). apply (proj2 (in_mapped _ _ _ _ _)). exists q, e. auto.
+Qed.
+
+(* ---- FULL decision soundness of the current code on the complete pipeline ---- *)
+Notation pulse := (pulse oper coef).
+Notation concatenate_outcome := (concatenate_outcome oper coef oeqb ceqb czero).
+Definition wf_pulse (p : pulse) : Prop := NoDup (map (@e_id oper coef) (h_entries (p_noise p))).
+Definition incompatible (e : cerror) : Prop := e = EShapes \/ e = EBases \/ exists h, e = EHam h.
+
+Theorem decision_sound (ps : list pulse) cs o : Forall wf_pulse ps ->
+  match concatenate_outcome ps cs o with
+  | ORaise e => incompatible e \/
+                (e = EForced \/ e = ENoFreqPC) /\ o_omega o = None /\ all_equal_nat (grids_consulted cs) = false
+  | ORet r => (freq_dependent r = true -> grid_known cs o r) /\ (o_pc o = true -> t_pc r = true)
+  | OCopy => True
+  end.
+Proof.
+  intros Hwf. unfold Concat.concatenate_outcome, concatenate_outcome_gen.
+  assert (G : match (match concatenate_without_ff_gen oper coef oeqb ceqb czero current ps with
+                     | inl e => ORaise e
+                     | inr np => decide_gen current (r_ids (n_noise np)) (r_map (n_noise np))
+                                   (map (fun p => length (h_entries (p_noise p))) ps) cs o end) with
+              | ORaise e => incompatible e \/
+                  (e = EForced \/ e = ENoFreqPC) /\ o_omega o = None /\ all_equal_nat (grids_consulted cs) = false
+              | ORet r => (freq_dependent r = true -> grid_known cs o r) /\ (o_pc o = true -> t_pc r = true)
+              | OCopy => True end).
+  { unfold concatenate_without_ff_gen.
+    destruct (negb (all_equal_nat (map (@p_d oper coef) ps))). { left. left. reflexivity. }
+    destruct (negb (all_equal_nat (map (@p_basis oper coef) ps))). { left. right. left. reflexivity. }
+    destruct (concatenate_hamiltonian_gen oper coef oeqb ceqb czero current Control (map (@p_ctrl oper coef) ps)) as [e|c].
+    { left. right. right. eexists; reflexivity. }
+    destruct (concatenate_hamiltonian_gen oper coef oeqb ceqb czero current Noise (map (@p_noise oper coef) ps)) as [e|n] eqn:En.
+    { left. right. right. eexists; reflexivity. }
+    simpl.
+    pose proof (lens_ok_current Noise _ n En) as Hl.
+    assert (Hr : rows_ok (r_map n) (map (fun p => length (h_entries (p_noise p))) ps) = true).
+    { rewrite <- (map_map (@p_noise oper coef) (fun h => length (h_entries h))).
+      apply (rows_ok_current Noise _ n En). apply Forall_map. exact Hwf. }
+    pose proof (decide_sound_current (r_ids n) (r_map n) (map (fun p => length (h_entries (p_noise p))) ps) cs o Hl Hr) as S.
+    unfold decide in S.
+    destruct (decide_gen current _ _ _ cs o); auto. }
+  destruct ps as [|p0 [|p1 ps']]; auto.
+Qed.
 End Mapping.
+
+(* ================================================================================================ *)
+(* 5. the theorems depend on the mechanisms: with any one of them switched off (the pre-fix code) the
+      statements fail.  Operators are tagged by numbers (1 = X/2, 2 = Y/2, 3 = Z/2), coefficients are integers. *)
+Definition mech_no_map : mech := mkMech false true true true.
+Definition mech_no_dup : mech := mkMech true false true true.
+Definition mech_no_pc : mech := mkMech true true false true.
+Definition mech_no_rows : mech := mkMech true true true false.
+
+Definition wE (o : nat) (s : string) (r : list Z) : entry nat Z := mkEntry o s r.
+Definition wP (c : list (entry nat Z)) (n : list (entry nat Z)) : pulse nat Z := mkPulse 2 0 (mkHam 1 c) (mkHam 1 n) [1%Z].
+Definition w_outcome (mc : mech) := concatenate_outcome_gen nat Z Nat.eqb Z.eqb 0%Z mc.
+Definition w_ham (mc : mech) := concatenate_hamiltonian_gen nat Z Nat.eqb Z.eqb 0%Z mc Noise.
+Definition no_cache := mkCache None false false.
+Definition omega_only := mkCache (Some 0) false false.
+
+(* (i) disjoint noise-operator sets *)
+Definition wit_disjoint : list (pulse nat Z) :=
+  [wP [wE 1 "A" [1%Z]] [wE 3 "N" [1%Z]]; wP [wE 2 "B" [1%Z]] [wE 1 "M" [1%Z]]].
+(* (ii) identifier N on Z, X, Z *)
+Definition wit_stale : list (pulse nat Z) :=
+  [wP [wE 1 "A" [1%Z]] [wE 3 "N" [1%Z]]; wP [wE 2 "A" [1%Z]] [wE 1 "N" [1%Z]]; wP [wE 1 "A" [1%Z]] [wE 3 "N" [1%Z]]].
+(* (iii) a shared noise operator, equal grids cached (no control matrix), calc_filter_function = None *)
+Definition wit_shared : list (pulse nat Z) :=
+  [wP [wE 1 "A" [1%Z]] [wE 3 "N" [1%Z]]; wP [wE 2 "B" [1%Z]] [wE 3 "N" [1%Z]]].
+(* (iv) identifier N on Z, X, Z together with a shared operator *)
+Definition wit_stale_shared : list (pulse nat Z) :=
+  [wP [wE 1 "A" [1%Z]] [wE 2 "M" [1%Z]; wE 3 "N" [1%Z]]; wP [wE 2 "A" [1%Z]] [wE 2 "M" [1%Z]; wE 1 "N" [1%Z]];
+   wP [wE 1 "A" [1%Z]] [wE 2 "M" [1%Z]; wE 3 "N" [1%Z]]].
+Definition opts_pc := mkOpts TNone (Some 0) false true.
+
+Definition pc_silently_missing (mc : mech) (ps : list (pulse nat Z)) (cs : list cache) (o : opts) : Prop :=
+  o_pc o = true /\ exists r, w_outcome mc ps cs o = ORet r /\ t_pc r = false.
+Definition pc_available (mc : mech) (ps : list (pulse nat Z)) (cs : list cache) (o : opts) : Prop :=
+  exists r, w_outcome mc ps cs o = ORet r /\ t_pc r = true.
+
+(* without m_pc_general: correlations silently missing for disjoint sets and on the calc_filter_function=None exit *)
+Theorem decision_pc_prefix_refuted_disjoint : pc_silently_missing mech_no_pc wit_disjoint [no_cache; no_cache] opts_pc.
+Proof. split; [reflexivity|]. eexists; split; [vm_compute; reflexivity|reflexivity]. Qed.
+Theorem decision_pc_prefix_refuted_no_control_matrix :
+  pc_silently_missing mech_no_pc wit_shared [omega_only; omega_only] (mkOpts TNone None false true).
+Proof. split; [reflexivity|]. eexists; split; [vm_compute; reflexivity|reflexivity]. Qed.
+(* without m_map_all: the stale mapping of the third pulse yields masks of the wrong length (IndexError), and with
+   all mechanisms off (the pinned snapshot) the correlations are silently missing *)
+Theorem decision_prefix_refuted_stale_mapping_crash :
+  w_outcome mech_no_map wit_stale [no_cache; no_cache; no_cache] opts_pc = ORaise EIndexError /\
+  w_outcome mech_no_map wit_stale_shared [no_cache; no_cache; no_cache] (mkOpts TTrue (Some 0) false false) = ORaise EIndexError.
+Proof. split; vm_compute; reflexivity. Qed.
+Theorem decision_pc_prefix_refuted_stale_mapping : pc_silently_missing prefix wit_stale [no_cache; no_cache; no_cache] opts_pc.
+Proof. split; [reflexivity|]. eexists; split; [vm_compute; reflexivity|reflexivity]. Qed.
+(* the same inputs on the current code *)
+Example decision_pc_current_witnesses :
+  pc_available current wit_disjoint [no_cache; no_cache] opts_pc /\
+  pc_available current wit_shared [omega_only; omega_only] (mkOpts TNone None false true) /\
+  pc_available current wit_stale [no_cache; no_cache; no_cache] opts_pc /\
+  pc_available current wit_stale_shared [no_cache; no_cache; no_cache] opts_pc.
+Proof. repeat split; (eexists; split; [vm_compute; reflexivity|reflexivity]). Qed.
+Theorem decision_sound_prefix_refuted : ~ decision_sound_stmt mech_no_pc.
+Proof.
+  intros H.
+  specialize (H ["N"%string] [[("N", "N")]; [("N", "N")]]%string [1; 1] [omega_only; omega_only] (mkOpts TNone None false true)).
+  vm_compute in H. destruct H as [_ H]. specialize (H eq_refl). discriminate.
+Qed.
+
+(* identifier mapping *)
+Definition lookup (s : string) (m : list (string * string)) : option string :=
+  option_map snd (find (fun kv => String.eqb s (fst kv)) m).
+Definition id_of_op (r : hresult nat Z) (o : nat) : option string :=
+  option_map snd (find (fun oi => Nat.eqb o (fst oi)) (combine (r_ops r) (r_ids r))).
+Definition mapping_sound_on (mc : mech) (hs : list (ham nat Z)) : Prop :=
+  forall r, w_ham mc hs = inr r ->
+  forall j h e, nth_error hs j = Some h -> In e (h_entries h) ->
+    lookup (e_id e) (nth j (r_map r) []) = id_of_op r (e_op e).
+Definition hams_ZXZ : list (ham nat Z) :=
+  [mkHam 1 [mkEntry 3 "N" [1%Z]]; mkHam 1 [mkEntry 1 "N" [1%Z]]; mkHam 1 [mkEntry 3 "N" [1%Z]]].
+Theorem mapping_prefix_refuted : ~ mapping_sound_on mech_no_map hams_ZXZ.
+Proof.
+  intros H. unfold mapping_sound_on in H.
+  specialize (H _ eq_refl 2 (mkHam 1 [mkEntry 3 "N"%string [1%Z]]) (mkEntry 3 "N"%string [1%Z]) eq_refl (or_introl eq_refl)).
+  vm_compute in H. discriminate.
+Qed.
+Example mapping_current_ZXZ : mapping_sound_on current hams_ZXZ.
+Proof.
+  intros r Hr j h e Hj He. vm_compute in Hr. inversion Hr; subst; clear Hr.
+  destruct j as [|[|[|j]]]; simpl in Hj.
+  - inversion Hj; subst. simpl in He. destruct He as [<-|[]]. reflexivity.
+  - inversion Hj; subst. simpl in He. destruct He as [<-|[]]. reflexivity.
+  - inversion Hj; subst. simpl in He. destruct He as [<-|[]]. reflexivity.
+  - destruct j; discriminate.
+Qed.
+
+(* suffix collision: N on Z and X, and an operator already called N_0 *)
+Definition hams_dup : list (ham nat Z) :=
+  [mkHam 1 [mkEntry 3 "N" [1%Z]]; mkHam 1 [mkEntry 1 "N" [1%Z]; mkEntry 2 "N_0" [1%Z]]].
+Theorem dup_ids_prefix_refuted : exists r, w_ham mech_no_dup hams_dup = inr r /\ has_dup_str (r_ids r) = true.
+Proof. eexists. split; [vm_compute; reflexivity|reflexivity]. Qed.
+Example dup_ids_current_rejected : w_ham current hams_dup = inl (EDupIds Noise).
+Proof. reflexivity. Qed.
+
+(* rows: control_matrix_atomic[i, idx] = pulse.get_control_matrix(omega)[order] must put the control-matrix row of
+   an operator of pulse i into the row of the same operator of the new pulse *)
+Definition rows_sound_on (mc : mech) (hs : list (ham nat Z)) : Prop :=
+  forall r, w_ham mc hs = inr r ->
+  forall i h row k, nth_error hs i = Some h ->
+    nth_error (nth i (row_sources_gen mc (r_ids r) (r_map r)) []) row = Some (Some k) ->
+    option_map (@e_op nat Z) (nth_error (h_entries h) k) = nth_error (r_ops r) row.
+(* identifiers 'X', 'XY': the suffix changes the order ('XY' < 'X_0') *)
+Definition hams_flip : list (ham nat Z) :=
+  [mkHam 1 [mkEntry 3 "X" [1%Z]; mkEntry 2 "XY" [1%Z]]; mkHam 1 [mkEntry 1 "X" [1%Z]; mkEntry 2 "XY" [1%Z]]].
+Theorem row_assignment_prefix_refuted : ~ rows_sound_on mech_no_rows hams_flip.
+Proof.
+  intros H. unfold rows_sound_on in H.
+  specialize (H _ eq_refl 0 (mkHam 1 [mkEntry 3 "X"%string [1%Z]; mkEntry 2 "XY"%string [1%Z]]) 0 0 eq_refl eq_refl).
+  vm_compute in H. discriminate.
+Qed.
+Example row_assignment_current_flip : rows_sound_on current hams_flip.
+Proof.
+  intros r Hr i h row k Hi Hrow. vm_compute in Hr. inversion Hr; subst; clear Hr.
+  destruct i as [|[|i]]; simpl in Hi.
+  - inversion Hi; subst. destruct row as [|[|[|row]]]; vm_compute in Hrow; try (destruct row; discriminate); inversion Hrow; subst; reflexivity.
+  - inversion Hi; subst. destruct row as [|[|[|row]]]; vm_compute in Hrow; try (destruct row; discriminate); inversion Hrow; subst; reflexivity.
+  - destruct i; discriminate.
+Qed.
+
+(* regrouping after a clash is REJECTED by the current code (open finding): the inner concatenation renames the
+   operator Z from X to X_0, the third pulse still calls it X *)
+Fixpoint entries_of (ops : list nat) (ids : list string) (rows : list (list Z)) : list (entry nat Z) :=
+  match ops, ids, rows with o :: ops', i :: ids', r :: rows' => mkEntry o i r :: entries_of ops' ids' rows' | _, _, _ => [] end.
+Definition ham_of (n : nat) (r : hresult nat Z) : ham nat Z := mkHam n (entries_of (r_ops r) (r_ids r) (r_rows r)).
+Definition hams_regroup : list (ham nat Z) :=
+  [mkHam 1 [mkEntry 3 "X" [1%Z]; mkEntry 2 "XY" [1%Z]]; mkHam 1 [mkEntry 1 "X" [1%Z]; mkEntry 2 "XY" [1%Z]];
+   mkHam 1 [mkEntry 3 "X" [1%Z]; mkEntry 2 "XY" [1%Z]]].
+Theorem regroup_after_clash_refuted :
+  (exists r, w_ham current hams_regroup = inr r) /\
+  exists r12, w_ham current (firstn 2 hams_regroup) = inr r12 /\
+              w_ham current [ham_of 2 r12; nth 2 hams_regroup (mkHam 0 [])] = inl (EOperIds Noise).
+Proof. split; [eexists; vm_compute; reflexivity|]. eexists. split; vm_compute; reflexivity. Qed.
